@@ -11,7 +11,7 @@ import Mathlib.Tactic.SplitIfs
     set `units_found` is the list `st.known ++ cellmlUnits` (newest first, built-ins last): the tie proves that the
     code keeps it equal to the names the unit store knows, which is what the model assumes (`Store.isDefined`). -/
 
-namespace Cellml.Tie
+namespace Cellml.Tie.PUnitDefs
 open Units Cellml.Gen
 
 /-- the python deque of a model deque: (name, attribute dicts) pairs, right end last -/
@@ -289,4 +289,4 @@ theorem addUnits_tie (id : Nat) (defs : List UDef) :
     obtain ⟨reg, st⟩ := r
     simp only [ofPy_py _ (queue_not_base defs), Nat.zero_le, dite_true]
 
-end Cellml.Tie
+end Cellml.Tie.PUnitDefs
